@@ -32,9 +32,8 @@ def build(S, tier, seed):
               loops={trashdirs.VOLUME_OF_LOOP: trashdirs.volume_of_loop_annot(),
                      dates.PARSE_LOOP: dates.parse_loop_annot(),
                      purge.PARSE_PATH_LOOP: purge.parse_path_loop_annot()})
-    act = [trashdirs.VolumeOf().key, trashdirs.HomeTrashDirPath().key]
-    S.verify(put.SecurityCheckC())
-    S.verify(put.Finder(), active=act)
+    act = put.leaf_vcs(S)
+    purge.leaf_vcs(S)
     S.verify(trashdirs.ValidToBeRead())
     put.trash_file_in_vc(S, conservation=False)
     put.trash_file_vc(S)
